@@ -1,4 +1,5 @@
 import SamVerif.Lemmas.Differ
+import SamVerif.Lemmas.DifferText
 /-!
 # C16 — Text edits proposed by the language server apply cleanly
 
@@ -247,5 +248,85 @@ theorem diff_total_correct (old new : List α) :
   obtain ⟨tr, htr⟩ := longestTrace_total old new
   refine ⟨computeWith old new tr, by simp [diff, compute, htr], ?_⟩
   exact script_correct old new tr (trace_valid _ old new tr htr)
+
+/-! ## Text level (`Model/DifferText.lean`) -/
+
+/-- **Lift of `script_correct` to text.**  Let the old items occupy the ranges `[st i, en i)` of the
+document `doc` (any monotone layout: arbitrary gaps — blank lines, comments — between items) and let
+the edits be what `wrapped_list_diff` + `Change::to_edit` make of the script (range `rangeOf`, text
+`changeText`: a replace is the rendering of the new item, a delete is empty, an insert is the
+renderings joined by "\n" with a leading "\n" when `leading_separator`).  Applying them in order gives
+exactly the chunk sequence `expChunks`: the document up to the first old item verbatim, every gap
+verbatim, every matched old item verbatim, every other new item as its rendering — and the item
+chunks, read in order, are precisely the new list. -/
+theorem text_lift (doc : Text) (st en : Nat → Nat) (hl : Lay st en) (rnd : α → Text)
+    (old new : List α) (tr : Trace) (hv : ValidTrace old new tr) :
+    applyTE 0 doc (toOffEdits st en rnd (computeWith old new tr))
+        = dslice doc 0 (bnd st en 0) ++ flatChunks (expChunks doc st en rnd old new 0 0 tr) ∧
+      (expChunks doc st en rnd old new 0 0 tr).filterMap (·.1) = new := by
+  constructor
+  · unfold computeWith
+    rw [sorted_eq_segs old new tr hv]
+    have := ttrace_apply doc st en hl rnd old new tr 0 0 0 hv (Nat.zero_le _) (Nat.zero_le _) (Nat.zero_le _)
+    simpa using this
+  · simpa using items_expChunks doc st en rnd old new tr 0 0 hv (Nat.zero_le _)
+
+/-- non-vacuity: a layout (`[3i, 3i+2)`) exists -/
+example : Lay (fun i => 3 * i) (fun i => 3 * i + 2) :=
+  ⟨fun i => by omega, fun i j h => by omega⟩
+
+/-- **The same for a document given as lines with `(line, column)` edits**, fuel-free: for all item
+lists the differ returns a script, and applying the `(line, col)` edits of `importEdits`
+(`wrapped_list_diff` + `to_edit` for the import list) to the document yields the expected chunk
+sequence whose items are the new list. Layout hypothesis: the offsets of the item locations are
+monotone. -/
+theorem import_edits_text (doc : Doc) (locs : List (Pos × Pos)) (rnd : α → Text) (old new : List α)
+    (hl : Lay (fun i => off doc (locStart locs i)) (fun i => off doc (locStop locs i))) :
+    ∃ s tr, diff old new = some s ∧
+      applyEdits doc (importEdits locs rnd s) =
+        dslice (flatten doc) 0 (off doc (locStart locs 0)) ++
+          flatChunks (expChunks (flatten doc) (fun i => off doc (locStart locs i))
+            (fun i => off doc (locStop locs i)) rnd old new 0 0 tr) ∧
+      (expChunks (flatten doc) (fun i => off doc (locStart locs i))
+        (fun i => off doc (locStop locs i)) rnd old new 0 0 tr).filterMap (·.1) = new := by
+  obtain ⟨tr, htr⟩ := longestTrace_total old new
+  have hv := trace_valid _ old new tr htr
+  refine ⟨computeWith old new tr, tr, by simp [diff, compute, htr], ?_⟩
+  have := text_lift (flatten doc) _ _ hl rnd old new tr hv
+  unfold applyEdits
+  rw [importEdits_off]
+  simpa [bnd] using this
+
+/-- **Auto-import as text** (`generate_auto_import_edits`, lib.rs:554-590): for every import list, every
+layout and every new import `x`, the quick fix / completion edit applied to the document gives the
+document with "\n" + the rendered import inserted right behind the last existing import — or, with
+no import yet, the rendered import in front of the document.  Nothing else changes. -/
+theorem auto_import_text (doc : Doc) (locs : List (Pos × Pos)) (rnd : α → Text) (old : List α) (x : α) :
+    ∃ eds, autoImportEdits locs rnd old x = some eds ∧
+      applyEdits doc eds =
+        if old = [] then (flatten doc).take (off doc (locStart locs 0)) ++ rnd x ++
+            (flatten doc).drop (off doc (locStart locs 0))
+        else (flatten doc).take (off doc (locStop locs (old.length - 1))) ++ sepNL ++ rnd x ++
+            (flatten doc).drop (off doc (locStop locs (old.length - 1))) := by
+  unfold autoImportEdits
+  rw [diff_append_one]
+  refine ⟨_, rfl, ?_⟩
+  cases old with
+  | nil =>
+    simp [importEdits, rangeOfPos, changeText, joinSep, applyEdits, applyTE]
+  | cons a as =>
+    have h1 : ¬ (Int.ofNat (a :: as).length - 1 < 0) := by
+      simp only [List.length_cons, Int.ofNat_eq_natCast]; omega
+    have h2 : (Int.ofNat (a :: as).length - 1).toNat = (a :: as).length - 1 := by
+      simp only [List.length_cons, Int.ofNat_eq_natCast]; omega
+    have h3 : ¬ ((as.length : Int) < 0) := by omega
+    simp [importEdits, rangeOfPos, h3, changeText, joinSep, applyEdits, applyTE]
+
+/-- With no import, `locStart [] 0 = (0, 0)` is the document start: the import is simply prepended. -/
+example (doc : Doc) (rnd : Nat → Text) (x : Nat) :
+    ∃ eds, autoImportEdits [] rnd [] x = some eds ∧ applyEdits doc eds = rnd x ++ flatten doc := by
+  obtain ⟨eds, h1, h2⟩ := auto_import_text doc [] rnd [] x
+  refine ⟨eds, h1, ?_⟩
+  rw [h2]; simp [locStart, off]
 
 end SamVerif.Differ
